@@ -69,7 +69,12 @@ impl RespSpec {
     }
     fn push_framing(&self, w: &mut Vec<u8>) {
         match &self.body {
-            BodySpec::Chunked { .. } => {
+            BodySpec::Chunked { chunks, .. } => {
+                // a Content-Length next to `chunked` is ignored (chunked wins): sent in one chunked response in six
+                let both = (chunks.len() + self.fields.len() + self.te_value.len()) % 6 == 0;
+                if both {
+                    w.extend_from_slice(format!("Content-Length: {}\r\n", chunks.iter().map(|c| c.data.len()).sum::<usize>()).as_bytes());
+                }
                 w.extend_from_slice(&self.te_name);
                 w.extend_from_slice(b": ");
                 w.extend_from_slice(&self.te_value);
@@ -238,6 +243,10 @@ pub fn gen_trailers(rng: &mut Rng) -> Vec<Vec<u8>> {
             for _ in 0..vl {
                 l.push(rng.range(0x20, 0x7e) as u8);
             }
+            if rng.chance(1, 25) {
+                // exactly as long as the client accepts (the limit includes the line ending)
+                l.resize(crate::consts().trailer_line_limit - 2, b't');
+            }
             l
         })
         .collect()
@@ -245,7 +254,8 @@ pub fn gen_trailers(rng: &mut Rng) -> Vec<Vec<u8>> {
 
 pub fn te_spelling(rng: &mut Rng) -> (Vec<u8>, Vec<u8>) {
     let names: [&[u8]; 3] = [b"Transfer-Encoding", b"transfer-encoding", b"TRANSFER-ENCODING"];
-    let vals: [&[u8]; 5] = [b"chunked", b"Chunked", b"CHUNKED", b"chunkeD", b"identity, chunked"];
+    // optional whitespace around list members is SP or HTAB
+    let vals: [&[u8]; 9] = [b"chunked", b"Chunked", b"CHUNKED", b"chunkeD", b"identity, chunked", b"\tchunked", b"chunked\t ", b"identity,\tchunked", b"identity \t,\t chunked"];
     (rng.pick(&names).to_vec(), rng.pick(&vals).to_vec())
 }
 
@@ -263,7 +273,16 @@ pub fn gen_valid(rng: &mut Rng, framing: u64, big: bool) -> RespSpec {
             let chunks = (0..nchunks)
                 .map(|_| {
                     let n = gen_len(rng, big).max(1);
-                    Chunk { data: payload_bytes(rng, n), size_repr: size_repr(rng, n), ext: chunk_ext(rng) }
+                    let mut c = Chunk { data: payload_bytes(rng, n), size_repr: size_repr(rng, n), ext: chunk_ext(rng) };
+                    // a size line of exactly the length the client accepts (its limit includes the line ending)
+                    if rng.chance(1, 10) {
+                        let lim = crate::consts().chunk_size_line_limit;
+                        let want = lim.saturating_sub(2 + c.size_repr.len());
+                        if want >= 1 {
+                            c.ext = std::iter::once(b';').chain(std::iter::repeat(b'e').take(want - 1)).collect();
+                        }
+                    }
+                    c
                 })
                 .collect();
             let mut last_repr = vec![b'0'];
